@@ -9,23 +9,28 @@ from mc.oracle.wcsref import sep as ld_sep      # long double, atan2 form, indep
 from mc.util import fingerprint, same_bits
 
 RULE = (
-    "rings: full product centre (17 fixed: both poles, octant corners, edge mid-points, octant centre, "
-    "RA-seam pair, near-pole points + 3 seed-chosen generic points) x radius alphabet (0, 1e-6 .. 180 deg + "
-    "1 seed-chosen) x depth x {centre against ring, ring against centre: maxmatch 0/1/3; ring against itself}; "
-    "the ring holds an identical copy of the centre and points at separations {r/2, 0.9r, r-2e-9, r+2e-9, "
-    "1.01r, 2r} (radius 0: {2e-9, 2e-7, 1e-4}) in 8 (24) bearings, computed in long double.  "
-    "sets: a 139-point set S (the centres, exact duplicates, destination points at 2e-7/1e-4/0.01/1 deg in 3 "
-    "bearings around 10 centres) matched against itself and against/with 14 fixed subsets (some as byte-swapped, "
-    "strided, negative-stride, list and scalar inputs) x radius alphabet + per-point radius arrays x depth x "
+    "rings: full product centre (18 fixed: both poles incl. the north pole under two ra values, octahedron "
+    "vertices, edge mid-points, octant centre, RA-seam pair, near-pole points + 3 seed-chosen generic points) x "
+    "radius alphabet (0, 1e-6, 1e-5, 1.5e-4, 0.015, 0.5, 1.5, 30, 90, 135, 180 deg + 1 seed-chosen) x depth "
+    "(quick 1,2,4,7,10,13; thorough 1..13) x {centre against ring, ring against centre: maxmatch 0/1/3; ring "
+    "against itself}; the ring holds a bit-identical copy of the centre and points at separations {r/2, 0.9r, "
+    "r-2e-9, r+2e-9, 1.01r, 2r} (radius 0: {2e-9, 2e-7, 1e-4}) in 8 (24) bearings, computed in long double; "
+    "routes HTM.match and Matcher.match.  "
+    "sets: S = 142 points (the centres, an exact duplicate, 3 generic points, destination points at "
+    "2e-7/1e-4/0.01/1 deg in 3 bearings around 10 centres), 14 fixed sub-selections of S (bases, destinations, "
+    "even/odd, polar, seam, hemispheres, head/tail, one point, one point repeated, reversed, scrambled) and 5 "
+    "spread-out sets (96-point quasi-uniform sphere, caps of 30 / 1 (across ra=0) / 0.01 (north pole) / 1e-4 deg); "
+    "set pairs (self-matches, S against/with each selection, disjoint far-apart pairs, and byte-swapped, "
+    "strided, negative-stride, list/int and scalar inputs) x radius alphabet + per-point radius arrays x depth x "
     "maxmatch {-1,0,1,2,3,1000}; every case runs FOUR routes (HTM.match, Matcher.match, each in memory and "
     "through file= + read_pairs) and checks each against the brute-force answer, the file routes also against "
     "their in-memory twin.  Configurations whose radius exceeds 64 triangle widths (90/2^depth deg) are off the "
     "lattice (cost).  non-trivial = the configuration has at least one pair that must be returned and at least "
     "one that must not.  histories: BFS over ALL sequences (no merging below the depth bound) of 7 match "
     "events (different first sets, scalar and per-point radii, maxmatch, memory/file, and a second Matcher of "
-    "another depth built and used in between) on ONE Matcher; the last call of every history is compared "
-    "bit-for-bit with the same call on a fresh Matcher and with brute force, and every array returned earlier "
-    "must be unchanged."
+    "another depth on another set built and used in between) on ONE Matcher (3 roots: depth 8 on S, depth 4 on "
+    "scrambled S, depth 10 on a repeated point); the last call of every history is compared bit-for-bit with "
+    "the same call on a fresh Matcher and with brute force, and every array returned earlier must be unchanged."
 )
 ASSUMPTIONS = [
     "reference: brute force over all n1*n2 pairs, separation by the atan2 (Vincenty) formula in numpy.longdouble "
@@ -111,6 +116,7 @@ CENTRES = [
     (315.0, -45.0),                  # on a level-2 edge, southern hemisphere
     (90.0, 45.0),
     (359.5, -0.25),                  # close to seam and equator, not on them
+    (250.0, 90.0),                   # the north pole again under another ra (same point, different coordinates)
 ]
 N_RING_SET = 10                      # destination points of S are placed around the first 10 centres
 S_SEPS = [2e-07, 1e-04, 0.01, 1.0]
@@ -581,8 +587,11 @@ def main(ctx):
         if isinstance(radspec, tuple):
             rad = as_variant(rvec, v1)
         else:
-            rad = {"native": float(radspec), "list": [float(radspec)], "scalar": float(radspec)}.get(
-                variant, as_variant([radspec], "swapped" if "swapped" in variant else "native"))
+            r = float(radspec)
+            rad = {"native": r, "scalar": r,
+                   # python int where the radius is integral (30, 90, 180), else a one-element list
+                   "list": int(r) if (r.is_integer() and r > 0) else [r]}.get(
+                variant, as_variant([r], "swapped" if "swapped" in variant else "native"))
         n = run_routes(case, rec, T, depth, c1, c2, rad, mm, ROUTES)
         if n is None:
             return
@@ -600,6 +609,7 @@ def main(ctx):
         ("head", "all", "strided"),
         ("tail", "even", "negstride"),
         ("seam", "north", "list"),
+        ("bases", "sphere", "list"),
         ("sphere", "sphere", "native"),     # quasi-uniform on the sphere, self-match
         ("cap30", "sphere", "native"),
         ("cap1e-4", "cap1e-4", "native"),   # clustered: 48 points within 1e-4 deg of a generic point
